@@ -330,7 +330,12 @@ class NpCalls:
     def np_add_at(self, interp, st, args, kwargs, node):
         """np.add.at(a, indices, b): unbuffered a[indices] += b (every occurrence of an index counts)"""
         if len(args) >= 2:
-            interp.emit('store', node, kind='add_at', base=as_array(args[0]), index=args[1], value=args[2] if len(args) > 2 else const(1), stmt=None)
+            base, val = as_array(args[0]), (args[2] if len(args) > 2 else const(1))
+            interp.emit('store', node, kind='add_at', base=base, index=args[1], value=val, stmt=None)
+            if base.alloc in ('zeros', 'zeros_like') and has_const(val) and cval(val) == 1 and node is not None and node.args and base.mono is None:
+                # a zero array incremented once per occurrence of an index: the multiplicities of the index tuples
+                self.rebind(interp, st, None, node.args[0],
+                            base.w(mono=Mono.atom('count'), filled_at=args[1], counted_by_add_at=True, dtype='int'))
         return const(None)
 
     def np_reshape(self, interp, st, args, kwargs, node):
@@ -929,7 +934,7 @@ class NpCalls:
             interp.emit('store', node, kind='out=', base=kwargs['out'], index=None, value=None, stmt=None)
         g = self.geo_dot(interp, a, b, node)
         ma, mb = mono_of(a), mono_of(b)
-        m = (ma * mb).wrap('sum') if (ma is not None and mb is not None) else None
+        m = (ma * mb).wrap('sum[dot]') if (ma is not None and mb is not None) else None
         axes = a.axes if (g is not None and g[0] in ('CART', 'COV')) else None
         interp.emit('dot', node, a=a, b=b)
         if g is not None and g[0] == 'CART' and is_fractional(a.geo) and b.geo is not None and b.geo[0] == 'LATMAT':
